@@ -29,8 +29,9 @@
 (* Input combinations the documentation leaves open put the monitor into    *)
 (* `open` mode, in which it accepts everything: loop end <= loop start or   *)
 (* beyond the audio, start position beyond the slice,                       *)
-(* reverse on an empty sound, seeks to a time outside the audio / outside   *)
-(* the loop region / after the sound is over, a loop-region change that     *)
+(* reverse on an empty sound, seeks to a time outside the audio /            *)
+(* after the sound is over (a seek to a time outside the loop region lands  *)
+(* somewhere inside it), a loop-region change that     *)
 (* leaves the play head after the loop end, a change of the sign of the     *)
 (* rate, a rate change that is ramped across a multi-frame chunk.           *)
 (* A start position after the loop end (in the direction of play) is not    *)
@@ -243,7 +244,13 @@ ApplyCmd(m0) ==
     [] e.a = "multi" -> [m EXCEPT !.open = TRUE]
     [] e.a = "seek_to" ->
          IF m.stopped THEN m
-         ELSE IF ~Audible(m) \/ e.t \notin Region(m) THEN [m EXCEPT !.open = TRUE]
+         ELSE IF ~Audible(m) THEN [m EXCEPT !.open = TRUE]
+         \* a target outside the loop region (but inside the audio): where in the region the seek lands is left to the
+         \* implementation, but it lands inside it - a looping sound never plays a frame outside its loop after a seek
+         ELSE IF e.t \notin Region(m) /\ m.lp # NoLoop /\ e.t >= 0 /\ e.t < m.n
+              THEN [m EXCEPT !.hyps = UNION {SeekHyps(m, q) : q \in Region(m)}, !.cmd = "seek", !.age = 0, !.dr = 0, !.sat = FALSE,
+                             !.nearEnd = FALSE]
+         ELSE IF e.t \notin Region(m) THEN [m EXCEPT !.open = TRUE]
          ELSE [m EXCEPT !.hyps = SeekHyps(m, e.t), !.cmd = "seek", !.age = 0, !.dr = 0, !.sat = FALSE,
                         !.nearEnd = \E h \in m.hyps : h.q = NONE /\ h.g = 0]
     [] e.a = "seek_by" ->
